@@ -88,9 +88,10 @@ func (w *c06World) probeCalls(i int) int64 {
 
 // tickExpect is what the model says about one newEpoch transaction.
 type tickTx struct {
-	e     int64
-	alpha bool
-	tx    *transaction.Transaction
+	e      int64
+	alpha  bool
+	scoped bool // the Alphabet's witness has scope CalledByEntry: valid in Netmap, not in the contracts Netmap calls
+	tx     *transaction.Transaction
 }
 
 // observeTick checks one executed newEpoch transaction against the model.
@@ -104,7 +105,16 @@ func (w *c06World) afterTick(t tickTx, o *chainkit.Outcome, preCand, preNode2 []
 		}
 	}
 	want := t.alpha && t.e > w.cur && !rejecting
-	if want != o.Halt {
+	if t.scoped && w.subscribed(w.bal) && w.bal != (util.Uint160{}) && want {
+		// Balance re-checks the Alphabet's witness, which this transaction limits to the entry call: Balance may reject
+		// (then nothing changes) - what may not happen is a tick that succeeds without having reached Balance (the
+		// checks of a successful tick below decide that)
+		w.h.Mark("tick-with-CalledByEntry-scope")
+		if !o.Halt {
+			w.h.Mark("tick-refused")
+			return false
+		}
+	} else if want != o.Halt {
 		fail("C06: newEpoch(%d) at epoch %d alphabet=%v rejectingSubscriber=%v: expected success=%v, got %s", t.e, w.cur, t.alpha, rejecting, want, o)
 	}
 	if !o.Halt {
@@ -294,7 +304,11 @@ func TestC06Stateful(t *testing.T) {
 					if !withAlpha {
 						signers = deficientSigners(rt, w.c, w.nodes[1])
 					}
-					txs = append(txs, tickTx{e: e, alpha: withAlpha, tx: w.c.Prepare(signers, w.nm, "newEpoch", e)})
+					scoped := withAlpha && rapid.IntRange(0, 5).Draw(rt, "calledByEntry") == 0
+					if scoped {
+						w.c.NextScope = transaction.CalledByEntry
+					}
+					txs = append(txs, tickTx{e: e, alpha: withAlpha, scoped: scoped, tx: w.c.Prepare(signers, w.nm, "newEpoch", e)})
 				}
 				preCand := w.listStrings("netmapCandidates")
 				preNode2 := w.listStrings("listCandidates")
